@@ -103,6 +103,12 @@ impl Property for C01 {
         }
         let sols = call_entry(&k, c.entry % 4, &na, &prev, c.j6).map_err(|m| viol!("inverse kinematics never panics", "{} panicked: {}", what, m))?;
         ctx.class(&format!("solutions:{}", sols.len().min(9)));
+        if c.other.is_some() {
+            // ... and the answer does not change when the query is repeated
+            let again = call_entry(&k, c.entry % 4, &na, &prev, c.j6).map_err(|m| viol!("inverse kinematics never panics", "{} panicked on the second call: {}", what, m))?;
+            let same = again.len() == sols.len() && again.iter().zip(sols.iter()).all(|(a, b)| (0..6).all(|t| a[t].to_bits() == b[t].to_bits() || (a[t].is_nan() && b[t].is_nan())));
+            ensure!(same, "the same query gives the same answer when repeated", "{}: first {:?} second {:?}", what, sols, again);
+        }
 
         let want = c.pose.pose(r);
         let nonfinite_input = {
